@@ -759,13 +759,15 @@ func (s *ResettableKeystore) ResetCids(ctx context.Context, keysChan <-chan cid.
 	case <-s.done:
 		return ErrClosed
 	case s.resetOps <- resetOp{ctx: ctx, op: opStart, response: opsChan}:
-		select {
-		case err := <-opsChan:
-			if err != nil {
-				return err
-			}
-		case <-ctx.Done():
-			return ctx.Err()
+		// The worker has taken opStart and always answers it (it handles the
+		// whole operation before it looks at s.close again). Wait for that
+		// answer even if ctx is cancelled meanwhile: returning early would
+		// leave the worker blocked for ever on the unbuffered response
+		// channel (every later operation and Close would hang), and a start
+		// that succeeded must always be followed by opCleanup below. A
+		// cancelled ctx is noticed by the Phase A loop right after.
+		if err := <-opsChan; err != nil {
+			return err
 		}
 	}
 
